@@ -382,10 +382,10 @@ def r3(P: Project, R: Report) -> None:
             return "route:" + an.origin(arg)[:160]
         if nm.startswith("self.") and nm.count(".") == 1:
             g = meths.get(nm[5:])
-            if g is not None and any(isinstance(c, ast.Call) and call_name(c).endswith("stdin.send") for c in walk_local(g.node)):
+            if g is not None and any(_stdio.is_stdin_write(c, g.node) for c in walk_local(g.node)):
                 arg = subst_text(call.args[0], st) if call.args else "?"
                 return "write:" + an.origin(arg)[:160]
-        if nm.endswith("stdin.send"):
+        if nm.endswith("stdin.send") or _stdio.is_stdin_write(call, pm.node):
             return "write:direct"
         return None
 
@@ -425,10 +425,10 @@ def r3(P: Project, R: Report) -> None:
     # the writer used for the rejection performs exactly one stdin write per call
     for st, _n in rejected[:1]:
         pass
-    writer = [g for g in meths.values() if any(isinstance(c, ast.Call) and call_name(c).endswith("stdin.send") for c in walk_local(g.node)) and g.name != "_stdin_writer" and "writer" not in g.name]
+    writer = [g for g in meths.values() if any(_stdio.is_stdin_write(c, g.node) for c in walk_local(g.node)) and g.name != "_stdin_writer" and "writer" not in g.name]
     for g in writer:
         R.fn(g.fq)
-        wa, wo = run_paths(g.node, event_of=lambda c, st, an: "send" if call_name(c).endswith("stdin.send") else None, fallible=False)
+        wa, wo = run_paths(g.node, event_of=lambda c, st, an, g=g: "send" if _stdio.is_stdin_write(c, g.node) else None, fallible=False)
         cnts = {st.count("send") for st, _n in wo.ret} | {st.count("send") for st in wo.normal}
         R.ob("R3", f"{g.name}: at most one stdin write per call", cnts <= {0, 1}, g.where, f"write counts per path {sorted(cnts)}")
 
